@@ -227,6 +227,185 @@ attribute is compared case-insensitively by the code generators.  "Equal up to l
 `Fields.norm` (Spec/SrcLine.lean). -/
 def produceOp (f : Fields) : List Char := upStr f.op
 
+/-! ## Second-level splitting: statements whose first parameter carries a further statement
+
+`SplitLine` divides the parameter field at commas only.  A few code generators accept *prefix style* statements
+(`RPTC #5 ADDX.W R4,R7`, `|| [B0] SUB.S2 B8,B9,B7`, `OP MOV @A,B`, `ALTD INC IY`): the first parameter they receive still
+contains blanks, and they split it once more themselves.  The blank/tab runs at which they split are separators between
+components of the line (manual: "To separate the individual components you may also use tabulators instead of spaces"),
+so their spelling must not matter.  Transcribed:
+ * `asmsub.c FirstBlank`                   – position of the first blank or TAB, whichever comes first
+ * `strutil.c KillPrefBlanks`              – `trimLeft`
+ * `code3206x.c ReiterateOpPart` + the calling sequence in `MakeCode_3206X` (`||` / `[cond]` in label or mnemonic position)
+ * `code7720.c DecodeOP`
+ * `codemsp.c DecodeRPT`                   (the splitting part)
+ * `codez80.c StripPref`                   (Rabbit 2000 `ALTD`)
+ * `asmmac.c Preprocess`                   (`#define NAME text`, `#undef NAME`)
+Outside the model: what the code generators do with the parts afterwards (register / condition syntax, table lookup). -/
+
+/-- `strchr`: index of the first occurrence -/
+def strchr (ch : Char) : List Char → Option Nat
+  | [] => none
+  | c :: cs => if c == ch then some 0 else (strchr ch cs).map (· + 1)
+
+/-- `strrchr`: index of the last occurrence -/
+def strrchr (ch : Char) : List Char → Option Nat
+  | [] => none
+  | c :: cs =>
+    match strrchr ch cs with
+    | some i => some (i + 1)
+    | none => if c == ch then some 0 else none
+
+/-- `FirstBlank`: `h = strchr(s, ' ')` and `h = strchr(s, Char_HT)`, each kept if it is the smaller position -/
+def firstBlank (s : List Char) : Option Nat :=
+  let m0 : Option Nat := none
+  let m1 : Option Nat :=
+    match strchr ' ' s with
+    | some h => (match m0 with | none => some h | some m => if h < m then some h else some m)
+    | none => m0
+  match strchr '\t' s with
+  | some h => (match m1 with | none => some h | some m => if h < m then some h else some m)
+  | none => m1
+
+/-- `KillPrefBlanks` -/
+def trimLeft (s : List Char) : List Char := s.dropWhile isSpace
+
+/-- the split every caller performs: (text before the first blank/TAB, text after it with leading blanks removed) -/
+def splitAtBlank (s : List Char) : Option (List Char × List Char) :=
+  (firstBlank s).map (fun i => (s.take i, trimLeft (s.drop (i + 1))))
+
+/-- the prefix words taken off a statement (in source order) and the statement that remains -/
+structure PFields where
+  pre : List (List Char)
+  f : Fields
+  deriving DecidableEq, Repr
+
+inductive PrefixKind where
+  | plain     -- no prefix handling
+  | c6x       -- TMS320C6x: `||` and `[cond]`
+  | op7720    -- uPD7720/7725: `OP`
+  | rpt       -- MSP430X: `RPTC` / `RPTZ`
+  | altd      -- Rabbit 2000: `ALTD`
+  deriving DecidableEq, Repr
+
+/-- `ReiterateOpPart` (after `CheckOpt(OpPart)` succeeded): the first parameter becomes mnemonic (+ attribute at the
+first '.') and, if text follows a blank, the new first parameter (`StrCompSplitLeft` at `FirstBlank`, `KillPrefBlanks`).
+`none` = "wrong number of arguments". -/
+def reiterateOpPart (f : Fields) : Option Fields :=
+  match f.args with
+  | [] => none
+  | a :: rest =>
+    let oa : List Char × List (List Char) :=
+      match splitAtBlank a with
+      | none => (a, rest)
+      | some (h, t) => (h, t :: rest)
+    let opU := upStr oa.1
+    match strchr '.' opU with
+    | none => some ⟨f.lab, opU, [], oa.2⟩
+    | some j => some ⟨f.lab, opU.take j, opU.drop (j + 1), oa.2⟩
+
+def isCondOrPar (s : List Char) : Bool := s == ['|', '|'] || s.head? == some '['
+
+/-- the head of `MakeCode_3206X`: options from the label (a label `||` / `[cond]` is an option, not a symbol:
+`IsDef_3206X`), then `||` and `[cond]` in mnemonic position -/
+def makeCode3206 (f00 : Fields) : Option PFields :=
+  let pre0 : List (List Char) := if isCondOrPar f00.lab then [upStr f00.lab] else []
+  let f0 : Fields := { f00 with lab := if isCondOrPar f00.lab then [] else f00.lab }
+  let s1 : Option PFields :=
+    if f0.op == ['|', '|'] then (reiterateOpPart f0).map (fun f => ⟨pre0 ++ [f0.op], f⟩) else some ⟨pre0, f0⟩
+  match s1 with
+  | none => none
+  | some pf =>
+    if pf.f.op.head? == some '[' then (reiterateOpPart pf.f).map (fun f => ⟨pf.pre ++ [pf.f.op], f⟩) else some pf
+
+/-- `DecodeOP`: note that the mnemonic is upper-cased only when parameters follow it -/
+def decodeOP7720 (f : Fields) : PFields :=
+  match f.args with
+  | [] => ⟨[f.op], ⟨f.lab, [], [], []⟩⟩
+  | a :: rest =>
+    match splitAtBlank a with
+    | some (h, t) => ⟨[f.op], ⟨f.lab, upStr h, [], t :: rest⟩⟩
+    | none => ⟨[f.op], ⟨f.lab, a, [], rest⟩⟩
+
+/-- attribute at the last '.' (`strrchr`) -/
+def splitAttrLast (opU : List Char) : List Char × List Char :=
+  match strrchr '.' opU with
+  | some k => (opU.take k, opU.drop (k + 1))
+  | none => (opU, [])
+
+/-- `DecodeRPT`, splitting part: repeat count, mnemonic (`UpString`; attribute at the last '.'), first operand.
+`none` = "useless attribute" / "failed splitting argument into parts" / wrong argument count -/
+def decodeRPT (f : Fields) : Option PFields :=
+  if !f.attr.isEmpty then none
+  else
+    match f.args with
+    | [] => none
+    | a :: rest =>
+      match splitAtBlank a with
+      | none => none
+      | some (mult, r1) =>
+        match splitAtBlank r1 with
+        | none => none
+        | some (o, a1) =>
+          let oa := splitAttrLast (upStr o)
+          some ⟨[f.op, mult], ⟨f.lab, oa.1, oa.2, a1 :: rest⟩⟩
+
+/-- `StripPref("ALTD", ..)`: the mnemonic is the first parameter up to its first white space -/
+def stripPref (f : Fields) : PFields :=
+  match f.args with
+  | [] => ⟨[f.op], ⟨f.lab, [], [], []⟩⟩
+  | a :: rest =>
+    let w := a.takeWhile (fun c => !isSpace c)
+    let r := (a.drop w.length).dropWhile isSpace
+    ⟨[f.op], ⟨f.lab, upStr w, [], if r.isEmpty then rest else r :: rest⟩⟩
+
+/-- is the (upper-cased) mnemonic one that makes the code generator split its first parameter once more? -/
+def isPrefixStmt (k : PrefixKind) (opU : List Char) : Bool :=
+  match k with
+  | .plain => false
+  | .c6x => opU == ['|', '|'] || opU.head? == some '['
+  | .op7720 => opU == "OP".toList
+  | .rpt => opU == "RPTC".toList || opU == "RPTZ".toList
+  | .altd => opU == "ALTD".toList
+
+/-- what the code generator of a prefix-style statement works on: `f` = fields as SplitLine delivered them; the
+mnemonic passes `NLS_UpString` in Produce_Code first.  Statements that are not prefix statements of the given kind are
+returned unchanged. -/
+def resplit (k : PrefixKind) (f : Fields) : Option PFields :=
+  let fu : Fields := { f with op := upStr f.op }
+  match k with
+  | .plain => some ⟨[], fu⟩
+  | .c6x => makeCode3206 fu
+  | .op7720 => if isPrefixStmt .op7720 fu.op then some (decodeOP7720 fu) else some ⟨[], fu⟩
+  | .rpt => if isPrefixStmt .rpt fu.op then decodeRPT fu else some ⟨[], fu⟩
+  | .altd => if isPrefixStmt .altd fu.op then some (stripPref fu) else some ⟨[], fu⟩
+
+/-- equality of re-split statements up to the letter case of attribute (the mnemonic is already upper case) -/
+def PFields.norm (x : PFields) : PFields := { x with f := x.f.norm }
+
+/-! ### `Preprocess` -/
+
+/-- `Preprocess`: (directive, name, replacement text).  `#define NAME text` gives `("define", NAME, text)`, `#undef NAME`
+gives `("undef", NAME, [])`; a `define` without a blank after the name defines nothing (`none`).  The directive is
+compared with `as_strcasecmp`, reported here upper-cased. -/
+def preprocess (line : List Char) : Option (List Char × List Char × List Char) :=
+  match strchr '#' line with
+  | none => none
+  | some k =>
+    let h0 := line.drop (k + 1)
+    let ch : List Char × List Char :=
+      match splitAtBlank h0 with
+      | none => (h0, [])
+      | some (c, r) => (c, r)
+    let h := trimRight ch.2
+    let cmd := upStr ch.1
+    if cmd == "DEFINE".toList then
+      match splitAtBlank h with
+      | some (n, v) => some (cmd, n, v)
+      | none => none
+    else if cmd == "UNDEF".toList then some (cmd, h, [])
+    else none
+
 /-! ## ReadLnCont
 
 The per-call loop of ReadLnCont (fgets up to LF, strip LF and one preceding CR, append to the line buffer, strip a
